@@ -2,6 +2,8 @@ package main
 
 import (
 	"bytes"
+	"fmt"
+	"os"
 	"strings"
 
 	flags "github.com/jessevdk/go-flags"
@@ -22,6 +24,30 @@ func (r *runner) runOpMore(p *flags.Parser, op *OpSpec, or *OpResult) {
 		or.Err = "nil"
 		or.Ret = "nil"
 		or.Bytes = hexs(b.String())
+	case "complete":
+		os.Setenv("GO_FLAGS_COMPLETION", "1")
+		defer os.Unsetenv("GO_FLAGS_COMPLETION")
+		called := false
+		var items []flags.Completion
+		p.CompletionHandler = func(it []flags.Completion) {
+			called = true
+			items = it
+		}
+		ret, err := p.ParseArgs(l1decs(op.Args))
+		or.Err = renderErr(err)
+		or.Ret = hexList(ret)
+		if !called {
+			or.Items = "none"
+		} else {
+			parts := make([]string, len(items))
+			for i, it := range items {
+				parts[i] = hexs(it.Item) + ":" + hexs(it.Description)
+			}
+			or.Items = strings.Join(parts, ";")
+		}
+	case "inspect":
+		or.Err, or.Ret = "nil", "nil"
+		or.Model = inspectCmd(p.Command)
 	case "help":
 		var b bytes.Buffer
 		p.WriteHelp(&b)
@@ -33,4 +59,51 @@ func (r *runner) runOpMore(p *flags.Parser, op *OpSpec, or *OpResult) {
 	default:
 		or.Err = "UNKNOWN-OP"
 	}
+}
+
+func hl(a []string) string {
+	parts := make([]string, len(a))
+	for i, s := range a {
+		parts[i] = hexs(s)
+	}
+	return strings.Join(parts, ",")
+}
+
+func bb(b bool) string {
+	if b {
+		return "1"
+	}
+	return "0"
+}
+
+func inspectGroup(g *flags.Group) string {
+	var sb strings.Builder
+	sb.WriteString("G(" + strings.Join([]string{hexs(g.ShortDescription), hexs(g.LongDescription), hexs(g.Namespace), hexs(g.EnvNamespace), bb(g.Hidden)}, ";") + "){")
+	for _, o := range g.Options() {
+		sb.WriteString("O(" + strings.Join([]string{hexs(o.Field().Name), hexs(o.Description), fmt.Sprintf("%d", o.ShortName), hexs(o.LongName),
+			hl(o.Default), hexs(o.EnvDefaultKey), hexs(o.EnvDefaultDelim), bb(o.OptionalArgument), hl(o.OptionalValue), bb(o.Required),
+			hexs(o.ValueName), hexs(o.DefaultMask), hl(o.Choices), bb(o.Hidden),
+			hexs(o.LongNameWithNamespace()), hexs(o.EnvKeyWithNamespace()), hexs(o.String())}, ";") + ")")
+	}
+	for _, sg := range g.Groups() {
+		sb.WriteString(inspectGroup(sg))
+	}
+	sb.WriteString("}")
+	return sb.String()
+}
+
+func inspectCmd(c *flags.Command) string {
+	var sb strings.Builder
+	sb.WriteString("C(" + strings.Join([]string{hexs(c.Name), hl(c.Aliases), bb(c.SubcommandsOptional), bb(c.ArgsRequired)}, ";") + ")[")
+	for _, a := range c.Args() {
+		sb.WriteString("A(" + strings.Join([]string{hexs(a.Name), hexs(a.Description), fmt.Sprintf("%d", a.Required), fmt.Sprintf("%d", a.RequiredMaximum)}, ";") + ")")
+	}
+	sb.WriteString("]")
+	sb.WriteString(inspectGroup(c.Group))
+	sb.WriteString("<")
+	for _, sc := range c.Commands() {
+		sb.WriteString(inspectCmd(sc))
+	}
+	sb.WriteString(">")
+	return sb.String()
 }
